@@ -1,4 +1,5 @@
 import Rio.Model.HostFs
+import Rio.Proofs.UnpackNoPanic
 import Rio.Model.Tar
 import Rio.Generated.Facts
 /-!
@@ -62,15 +63,7 @@ theorem C06_counter_without_scan :
     is `..` or starts with `../`, or is absolute, never yields a metadata to place -/
 theorem C06_refuse_climbing (h : TarHdr) (m : Meta) (hm : tarHdrToMeta h = .meta_ m) :
     mustRel h.name = some m.name := by
-  unfold tarHdrToMeta at hm
-  cases hn : mustRel h.name with
-  | none => simp [hn] at hm
-  | some n =>
-    simp only [hn] at hm
-    cases ht : tarTypeToFsType h.typeflag with
-    | skip => simp [ht] at hm
-    | invalid => simp [ht] at hm
-    | kind k => simp only [ht] at hm; injection hm with hm; subst hm; rfl
+  exact (tarHdrToMeta_meta h m hm).1
 
 /-- T-fact tie: the calls `PlaceFile` relies on being no-follow resolve with `resolveLast = false`, and the one
     call that follows (`Chmod`) resolves the leaf in-base first (C07_discipline); see Props/C07. -/
